@@ -207,6 +207,21 @@ def fixed_pairs():
     P.append((d + 'macro B(expr e2, out dst) { dst = e2; "k"; }\nmacro A(expr e, out n, out m) { B([n + m * 10 + e], v); }\nmacro T(out n, out m) { A([n - m], m, n); }\n'
                   'parser { "a"; T(x, y); "b"; }\n',
               d + 'parser { "a"; v = [y + x * 10 + (x - y)]; "k"; "b"; }\n'))
+    # an enumeration constant passed as an expr argument and compared with an enum output inside the macro
+    e = "out enum{IDLE,HEADER,BODY} st;\nout int hits;\nhook h0;\n"
+    P.append((e + 'macro expect(expr want, match text) { if st == want { text; hits = [hits + 1]; } else { h0(); "?"; } }\n'
+                  'parser { "a"; st = HEADER; expect(HEADER, "hd"); st = BODY; expect(IDLE, "id"); "z"; }\n',
+              e + 'parser { "a"; st = HEADER; if st == HEADER { "hd"; hits = [hits + 1]; } else { h0(); "?"; } st = BODY; '
+                  'if st == IDLE { "id"; hits = [hits + 1]; } else { h0(); "?"; } "z"; }\n'))
+    P.append((e + 'macro setst(expr v) { st = v; "k"; }\nmacro twice(expr v) { setst(v); setst(BODY); }\nparser { "a"; twice(HEADER); "z"; }\n',
+              e + 'parser { "a"; st = HEADER; "k"; st = BODY; "k"; "z"; }\n'))
+    # a global named in a math argument, forwarded through a macro that does not bind the name to one that does
+    P.append((d + 'macro store(expr value, out v) { v = value; h0(); }\nmacro snapshot(expr e) { store(e, b); }\n'
+                  'parser { "a"; v = 3; snapshot([v * 10 + a]); "z"; }\n',
+              d + 'parser { "a"; v = 3; b = [v * 10 + a]; h0(); "z"; }\n'))
+    P.append((d + 'macro store(expr value, out x) { x = value; }\nmacro mid(expr e, out y) { store([e + y], b); }\nmacro top(expr e) { mid(e, a); }\n'
+                  'parser { "a"; top([x + 1]); "z"; }\n',
+              d + 'parser { "a"; b = [(x + 1) + a]; "z"; }\n'))
     return P
 
 
